@@ -117,26 +117,35 @@ func (j *Joe) Subscribe(ctx context.Context, sub Subscription) error {
 	j.init()
 
 	done := make(chan error, 1)
+	verifYield("sub.enter", subscriber(done), sub.Client)
+	defer verifYield("sub.return", subscriber(done), nil)
 
 	select {
 	case <-j.done:
+		verifYield("sub.closed", subscriber(done), nil)
 		return ErrProviderClosed
 	case j.subscription <- subscription{done: done, Subscription: sub}:
+		verifYield("sub.sent", subscriber(done), nil)
 	}
 
 	select {
 	case err := <-done:
+		verifYield("sub.done", subscriber(done), err)
 		return err
 	case <-ctx.Done():
+		verifYield("sub.ctx", subscriber(done), nil)
 	}
 
 	select {
 	case err := <-done:
+		verifYield("sub.done", subscriber(done), err)
 		return err
 	case j.unsubscription <- done:
+		verifYield("sub.unsub", subscriber(done), nil)
 		// Joe may have already failed this subscriber. Wait for done to be
 		// closed, so the subscriber's own error is not lost.
 		err := <-done
+		verifYield("sub.drain", subscriber(done), err)
 		return err
 	}
 }
@@ -163,13 +172,17 @@ func (j *Joe) Publish(msg *Message, topics []string) error {
 	pub := publishedMessage{replayerErr: errs}
 	pub.message = msg
 	pub.topics = topics
+	verifYield("pub.enter", pub.replayerErr, msg)
+	defer verifYield("pub.return", pub.replayerErr, nil)
 
 	// Waiting on done ensures Publish doesn't block the caller goroutine
 	// when Joe is stopped and implements the required Provider behavior.
 	select {
 	case j.message <- pub:
+		verifYield("pub.sent", pub.replayerErr, nil)
 		return <-errs
 	case <-j.done:
+		verifYield("pub.closed", pub.replayerErr, nil)
 		return ErrProviderClosed
 	}
 }
@@ -180,6 +193,8 @@ func (j *Joe) Publish(msg *Message, topics []string) error {
 // Further calls to Stop will return ErrProviderClosed.
 func (j *Joe) Shutdown(ctx context.Context) (err error) {
 	j.init()
+	verifYield("shut.enter", ctx, nil)
+	defer verifYield("shut.return", ctx, nil)
 
 	defer func() {
 		if r := recover(); r != nil {
@@ -187,11 +202,15 @@ func (j *Joe) Shutdown(ctx context.Context) (err error) {
 		}
 	}()
 
+	verifYield("shut.close", ctx, nil)
 	close(j.done)
+	verifYield("shut.closed", ctx, nil)
 
 	select {
 	case <-j.closed:
+		verifYield("shut.done", ctx, nil)
 	case <-ctx.Done():
+		verifYield("shut.ctx", ctx, nil)
 		err = ctx.Err()
 	}
 
@@ -202,23 +221,29 @@ func (j *Joe) removeSubscriber(sub subscriber) {
 	if _, ok := j.subscribers[sub]; !ok {
 		// Already removed (and closed) because it failed: an unsubscription
 		// request for it may still arrive afterwards.
+		verifYield("loop.remove.skip", sub, nil)
 		return
 	}
+	verifYield("loop.remove", sub, nil)
 	delete(j.subscribers, sub)
 	close(sub)
 }
 
 func (j *Joe) start(replay Replayer) {
 	defer close(j.closed)
+	defer verifYield("loop.exit", nil, nil)
 	// defer closing all subscribers instead of closing them when done is closed
 	// so in case of a panic subscribers won't block the request goroutines forever.
 	defer j.closeSubscribers()
 
 	for {
+		verifYield("loop.idle", nil, nil)
 		select {
 		case msg := <-j.message:
+			verifYield("loop.msg", msg.replayerErr, msg.message)
 			if replay != nil {
 				m, err := tryPut(msg.messageWithTopics, &replay)
+				verifYield("loop.put", msg.replayerErr, err)
 				if _, isPanic := err.(replayPanic); err != nil && !isPanic { //nolint:errorlint // it's our error
 					// NOTE(tmaxmax): We could return panic errors here but we'd have to expose
 					// the error type in order for this error to be handled. Let's not change
@@ -228,6 +253,7 @@ func (j *Joe) start(replay Replayer) {
 					msg.message = m
 				}
 			}
+			verifYield("loop.errs", msg.replayerErr, nil)
 			close(msg.replayerErr)
 
 			for done, sub := range j.subscribers {
@@ -238,15 +264,18 @@ func (j *Joe) start(replay Replayer) {
 					}
 
 					if err != nil {
+						verifYield("loop.fail", done, err)
 						done <- err
 						j.removeSubscriber(done)
 					}
 				}
 			}
 		case sub := <-j.subscription:
+			verifYield("loop.sub", sub.done, sub.Client)
 			var err error
 			if replay != nil {
 				err = tryReplay(sub.Subscription, &replay)
+				verifYield("loop.replayed", sub.done, err)
 			}
 
 			// NOTE(tmaxmax): Right now panics are not handled in any way
@@ -256,14 +285,18 @@ func (j *Joe) start(replay Replayer) {
 			//
 			// If there is demand to handle replayer panics a feature could be added.
 			if _, isPanic := err.(replayPanic); err != nil && !isPanic { //nolint:errorlint // it's our error
+				verifYield("loop.reject", sub.done, err)
 				sub.done <- err
 				close(sub.done)
 			} else {
+				verifYield("loop.reg", sub.done, nil)
 				j.subscribers[sub.done] = sub.Subscription
 			}
 		case sub := <-j.unsubscription:
+			verifYield("loop.unsub", sub, nil)
 			j.removeSubscriber(sub)
 		case <-j.done:
+			verifYield("loop.done", nil, nil)
 			return
 		}
 	}
